@@ -23,19 +23,39 @@ pub fn run_solstat(env: &Env, cwd: &Path, args: &[&str]) -> RunOut {
 
 /// `tmpdir`: the child's TMPDIR (None = inherit; the default lives on another file system than /dev/shm)
 pub fn run_solstat_tmp(env: &Env, cwd: &Path, args: &[&str], tmpdir: Option<&Path>) -> RunOut {
+    match tmpdir {
+        Some(t) => run_solstat_env(env, cwd, args, &[("TMPDIR", t)]),
+        None => run_solstat_env(env, cwd, args, &[]),
+    }
+}
+
+/// `vars`: environment variables (directories) set for the child
+pub fn run_solstat_env(env: &Env, cwd: &Path, args: &[&str], vars: &[(&str, &Path)]) -> RunOut {
     let mut cmd = Command::new(env.solstat_bin());
     cmd.args(args).current_dir(cwd).env("NO_COLOR", "1");
-    if let Some(t) = tmpdir {
-        cmd.env("TMPDIR", t);
+    for (k, v) in vars {
+        cmd.env(k, v);
     }
     let out = cmd.output();
     match out {
-        Ok(o) => RunOut {
-            code: o.status.code(),
-            stderr: String::from_utf8_lossy(&o.stderr).chars().take(600).collect(),
-            report: std::fs::read(cwd.join("solstat_report.md")).ok(),
-        },
-        Err(e) => RunOut { code: None, stderr: format!("cannot execute {}: {e}", env.solstat_bin().display()), report: None },
+        Ok(o) => {
+            use std::os::unix::process::ExitStatusExt;
+            if o.status.signal() == Some(9) {
+                // killed from outside (out-of-memory killer, a supervisor): says nothing about the property
+                eprintln!("HARNESS-ERROR: the solstat child process was killed by SIGKILL; result inconclusive");
+                std::process::exit(2);
+            }
+            RunOut {
+                code: o.status.code(),
+                stderr: String::from_utf8_lossy(&o.stderr).chars().take(600).collect(),
+                report: std::fs::read(cwd.join("solstat_report.md")).ok(),
+            }
+        }
+        Err(e) => {
+            // the binary could not be started at all (missing, not executable, out of processes): not a property violation
+            eprintln!("HARNESS-ERROR: cannot execute {}: {e}", env.solstat_bin().display());
+            std::process::exit(2);
+        }
     }
 }
 
@@ -157,6 +177,9 @@ pub fn c11_with(spec: &[Entry], parsed: &Parsed, expected: &BTreeMap<(String, St
             if !expected.is_empty() {
                 s.nontrivial(&format!("{:?}", expected));
             }
+            if !parsed.problems.is_empty() {
+                return vec![Violation::new("c11-binary", "binary:structure", format!("report structure: {}", parsed.problems[0]), json!({"tree": tree::to_json(spec)}))];
+            }
             if &got != expected {
                 let missing: Vec<_> = expected.iter().filter(|(k, n)| got.get(*k).copied().unwrap_or(0) < **n).take(3).collect();
                 let extra: Vec<_> = got.iter().filter(|(k, n)| expected.get(*k).copied().unwrap_or(0) < **n).take(3).collect();
@@ -197,6 +220,17 @@ pub fn c12_with(spec: &[Entry], parsed: &Parsed, expected: &BTreeMap<(String, St
             let qa_sections = parsed.sections.iter().any(|s| patterns::by_name(s).map(|p| p.category() == "qa").unwrap_or(false));
             if has("qa") != qa_sections {
                 out.push(Violation::new("c12-binary", "binary:qa-part-presence", format!("QA findings exist = {}, QA sections present = {}", has("qa"), qa_sections), case.clone()));
+            }
+            let count = |cat: &str| -> i64 { expected.iter().filter(|((p, _, _), _)| patterns::by_name(p).map(|p| p.category() == cat).unwrap_or(false)).map(|(_, n)| *n as i64).sum() };
+            if let Some(t) = parsed.total_vulnerabilities {
+                if t != count("vulnerabilities") {
+                    out.push(Violation::new("c12-binary", "binary:vulnerabilities-total", format!("the overview prints {t} vulnerabilities, the tree has {}", count("vulnerabilities")), case.clone()));
+                }
+            }
+            if let Some(t) = parsed.total_optimizations {
+                if t != count("optimizations") {
+                    out.push(Violation::new("c12-binary", "binary:optimizations-total", format!("the overview prints {t} optimisations, the tree has {}", count("optimizations")), case.clone()));
+                }
             }
             if !has("vulnerabilities") || !has("qa") || !has("optimizations") {
                 s.nontrivial(&format!("{:?}", expected));
